@@ -62,11 +62,28 @@ func newMarker() string {
 	return fmt.Sprintf("Mk%06dq7Zx9Wv3Tn5Rb1Ld8", markerSeq)[:24]
 }
 
+// newShapedMarker: a unique text that has the outer form of a date (or date-time) without being one: the 30th or 31st of
+// February of a year that identifies the marker.
+func newShapedMarker(shape string) string {
+	markerSeq++
+	m := fmt.Sprintf("%04d-02-%02d", 1000+markerSeq%9000, 30+markerSeq%2)
+	if shape == "date-time" {
+		m += "T10:20:30Z"
+	}
+	return m
+}
+
+// c19Shape, when set, makes markValue draw shaped markers (see newShapedMarker).
+var c19Shape string
+
 // markValue replaces every string leaf by a fresh marker and returns the markers used.
 func markValue(v any, markers *[]string, keepLen bool) any {
 	switch x := v.(type) {
 	case string:
 		m := newMarker()
+		if c19Shape != "" {
+			m = newShapedMarker(c19Shape)
+		}
 		*markers = append(*markers, m)
 		return m
 	case []any:
@@ -169,6 +186,22 @@ func runC19(c *core.Ctx) {
 				b, _ := json.Marshal(doc.Components.Schemas[name].Value)
 				json.Unmarshal(b, &raw)
 				c19Schema(c, raw, doc.Components.Schemas[name].Value, append(c12DiscValues(), universe...), false, detailsOff)
+			}
+			idx++
+		}
+	}
+	// values that have the outer form their format asks for and are refused all the same (a date that is no day of the
+	// calendar): a validator that checks more than the form must not quote what it refuses
+	for _, shape := range []string{"date", "date-time"} {
+		f := gen.S{"type": "string", "format": shape, "maxLength": 9.0} // (maxLength: refused in any case, whatever the format check says)
+		for _, s := range []gen.S{f, {"type": "object", "properties": gen.S{"a": f}}, {"type": "array", "items": f}, {"allOf": gen.Arr(f)}, {"oneOf": gen.Arr(f, gen.S{"type": "integer"})}, {"type": "object", "additionalProperties": f}} {
+			if c.Mine(idx) {
+				if sc, err := kinSchema(s); err == nil {
+					c19Shape = shape
+					c19Schema(c, s, sc, []any{"s", gen.S{"a": "s"}, gen.Arr("s", "s"), gen.S{"k": "s", "a": "s"}}, false, detailsOff)
+					c19Shape = ""
+					c.Cover("workload", "format-shaped markers: "+shape)
+				}
 			}
 			idx++
 		}
